@@ -773,6 +773,15 @@ func runC02(c *vf.Ctx) {
 			}
 		}
 	})
+	// JWT time claims: sequential (the parser clock is process-global)
+	if d, err := vf.StartDriver(); err == nil {
+		tcs := c02TimeCases(c)
+		c.Set("jwt_time_cases", len(tcs))
+		for _, tc := range tcs {
+			c02ExecTime(c, d, tc)
+		}
+		d.Close()
+	}
 }
 
 func replayC02(c *vf.Ctx, data json.RawMessage) {
@@ -786,9 +795,15 @@ func replayC02(c *vf.Ctx, data json.RawMessage) {
 	var probe struct {
 		Shapes string `json:"shapes"`
 		Kind   string `json:"kind"`
+		Time   string `json:"time_case"`
 	}
 	json.Unmarshal(data, &probe)
 	switch {
+	case probe.Time != "":
+		var tc c02TimeCase
+		if json.Unmarshal(data, &tc) == nil {
+			c02ExecTime(c, d, tc)
+		}
 	case probe.Shapes != "":
 		var hc c02HetCase
 		if json.Unmarshal(data, &hc) == nil {
